@@ -23,6 +23,8 @@ REGISTRY = {
     "C06": ("vverif.checks_names", "check_c06"),
     "C14": ("vverif.checks_names", "check_c14"),
     "C15": ("vverif.checks_objsm", "check_c15"),
+    "C16": ("vverif.checks_session", "check_c16"),
+    "C20": ("vverif.checks_session", "check_c20"),
     "C09": ("vverif.checks_laws", "check_c09"),
     "C10": ("vverif.checks_laws", "check_c10"),
     "C11": ("vverif.checks_laws", "check_c11"),
